@@ -896,13 +896,19 @@ func isAnyLoopCond(cond ssa.Value) bool {
 	if !ok || bo.Op != token.LSS {
 		return false
 	}
-	if ph, ok := bo.X.(*ssa.BinOp); ok {
-		if p2, ok := ph.X.(*ssa.Phi); ok && p2.Comment == "rangeindex" {
+	// the induction variable: a phi that one of its own edges is computed from (i, or i+1 in the rotated range form)
+	x, _ := eng.SplitConstAdd(bo.X)
+	ph, ok := x.(*ssa.Phi)
+	if !ok {
+		return false
+	}
+	if ph.Comment == "rangeindex" {
+		return true
+	}
+	for _, e := range ph.Edges {
+		if e != ssa.Value(ph) && eng.DependsOn(e, func(y ssa.Value) bool { return y == ssa.Value(ph) }) {
 			return true
 		}
-	}
-	if p2, ok := bo.X.(*ssa.Phi); ok && p2.Comment == "rangeindex" {
-		return true
 	}
 	return false
 }
